@@ -76,13 +76,20 @@ func corpus(r *rand.Rand) []string {
 		strings.Repeat("NOT (", 200)+"a:b"+strings.Repeat(")", 200),
 		strings.Repeat("a:b AND (c:d OR (", 120)+"e:f"+strings.Repeat("))", 120),
 		"x"+strings.Repeat(" y:z*", 400),
+		// a lone wildcard in every position it can take, field position included
+		"*:x", "*:[1 TO 3]", "?:a", "*:(a OR b)", "f:[* TO 5]", "f:{2 TO *}", "f:*", "NOT h:*", "* OR f:[* TO *]", "a:a", "a:(a OR b)", "a:b AND b:1",
 	)
 	return qs
 }
 
-var opNames = []string{"Parse", "ToPostgres", "ToParameterizedPostgres", "Render(shared)", "RenderParam(shared)", "String(shared)", "GoString(shared)", "Marshal(shared)", "Validate(shared)", "NewDriver.Render(shared)", "ParseDF", "Render(own)"}
+var opNames = []string{"Parse", "ToPostgres", "ToParameterizedPostgres", "Render(shared)", "RenderParam(shared)", "String(shared)", "GoString(shared)", "Marshal(shared)", "Validate(shared)", "NewDriver.Render(shared)", "ParseDF", "Render(own)", "Parse(shared option)", "ToParameterizedPostgres(shared option)"}
 
 var sharedDriver = driver.NewPostgresDriver()
+
+// option values created once and handed to every call and every goroutine: an option is an
+// argument, using it must not change it (the names hold backslashes and padding on purpose)
+var sharedOptA = lucene.WithDefaultField(`d\\f`)
+var sharedOptB = lucene.WithDefaultField(" x\\\\y ")
 
 // runOp executes operation op on query index qi and returns a canonical description of the result.
 func runOp(op int, q string, shared *expr.Expression) (res string) {
@@ -104,6 +111,12 @@ func runOp(op int, q string, shared *expr.Expression) (res string) {
 	case 10:
 		e, err := lucene.Parse(q, lucene.WithDefaultField("dfl"))
 		return fmt.Sprintf("%#v|%v", e, err)
+	case 12:
+		e, err := lucene.Parse(q, sharedOptA)
+		return fmt.Sprintf("%#v|%v", e, err)
+	case 13:
+		s, p, err := lucene.ToParameterizedPostgres(q, sharedOptB)
+		return fmt.Sprintf("%s|%#v|%v", s, p, err)
 	case 11:
 		e, err := lucene.Parse(q)
 		if err != nil {
@@ -138,7 +151,7 @@ func runOp(op int, q string, shared *expr.Expression) (res string) {
 	return "?"
 }
 
-const nOps = 12
+const nOps = 14
 
 var coldDone bool
 
@@ -400,7 +413,7 @@ func (c14) Finish(res *core.Result, cov map[string]any) []string {
 	cov["overlapping_operation_pairs_observed"] = res.NDistinct("overlapping_pairs")
 	cov["race_reports"] = res.Counters["race_reports"]
 	cov["assumptions"] = []string{"the Go race detector reports only races on the interleavings the scheduler produced; hook sinks only call runtime.Gosched()", "overlap accounting runs in separate configurations because its atomics add synchronisation"}
-	cov["rule"] = "N goroutines (2/8/64) x GOMAXPROCS (2/4/16), started together, run seeded scripts of 12 operations (Parse, ToPostgres, ToParameterizedPostgres, shared-driver Render/RenderParam, String, %#v, Marshal, Validate, fresh driver) over ~85 queries covering every operator, a third of the operations hitting 7 shared expressions; built with -race. Results are compared with a sequential baseline after the join, shared expressions with untouched twins, sequential repeats with each other; every race detector report is a violation. Non-trivial = distinct overlapping (operation, operation) pair observed in flight plus distinct concurrent configurations."
+	cov["rule"] = "N goroutines (2/8/64) x GOMAXPROCS (2/4/16), started together, run seeded scripts of 14 operations (Parse, ToPostgres, ToParameterizedPostgres, the same with option values shared by all calls, shared-driver Render/RenderParam, String, %#v, Marshal, Validate, fresh driver) over ~100 queries covering every operator, long and deep ones, a lone wildcard in every position, a third of the operations hitting 7 shared expressions; built with -race. Results are compared with a sequential baseline after the join, shared expressions with untouched twins, sequential repeats with each other; every race detector report is a violation. Non-trivial = distinct overlapping (operation, operation) pair observed in flight plus distinct concurrent configurations."
 	floor(res.Counters["concurrent_operations"] >= 10000, &reasons, "concurrent operations %d", res.Counters["concurrent_operations"])
 	floor(res.NDistinct("overlapping_pairs") >= 30, &reasons, "overlapping operation pairs observed %d < 30", res.NDistinct("overlapping_pairs"))
 	floor(res.Counters["race_logs_scanned"] > 0, &reasons, "race detector logs not scanned")
